@@ -895,10 +895,12 @@ HCIstaccess(accrec_t *access_rec, int16 acc_mode)
     if (HCIread_header(access_rec, info, &c_info, &m_info) == FAIL)
         HGOTO_ERROR(DFE_COMPINFO, FAIL);
     info->attached = 1;
+    /* on failure go through the cleanup below: the record must not keep a half-initialised special_info */
+    /* (its model/coder function tables are not set yet; Hendaccess would call through them) */
     if (HCIinit_model(acc_mode, &(info->minfo), info->minfo.model_type, &m_info) == FAIL)
-        HRETURN_ERROR(DFE_MINIT, FAIL);
+        HGOTO_ERROR(DFE_MINIT, FAIL);
     if (HCIinit_coder(acc_mode, &(info->cinfo), info->cinfo.coder_type, &c_info) == FAIL)
-        HRETURN_ERROR(DFE_CINIT, FAIL);
+        HGOTO_ERROR(DFE_CINIT, FAIL);
 
     file_rec->attach++;
 
